@@ -106,6 +106,17 @@ def families(tier):
         for o in ([names] if len(names) == 1 else [names, names[::-1]]):
             out.append(dict(prop='C03', family='c03.falsy_root_event', id=f'c03.falsy/{m}-{cb}-o{"".join(o)}', cfg=cfg, params=dict(leaf='falsy'),
                             scn=dict(buses={b: {} for b in names}, order=o, handlers=hs, main=[('disp', 'A', 'E', 'await')], actors=[stall_actor], forwards=[], settle=2.0)))
+    # root awaits middle, middle awaits leaf (both complete); the root's handler then hands the COMPLETED leaf (or middle) to a second bus without waiting and
+    # returns: the root is done when that bus is done with it, and must then be signalled - the way up leads through an ancestor that has long been complete
+    for which, depth3, hb in itertools.product(('G', 'C'), (True, False), ('pause', 'ret')):
+        if which == 'G' and not depth3:
+            continue
+        hs = [dict(bus='A', pat='P', name='hp', prog=[('disp', 'A', 'C', 'await'), ('redisp_named', 'B', which + '<'), ('ret', 1)]),
+              dict(bus='A', pat='C', name='hc', prog=[('disp', 'A', 'G', 'await'), ('ret', 2)] if depth3 else [('ret', 2)]), dict(bus='A', pat='G', name='hg', prog=[('ret', 3)]),
+              dict(bus='B', pat=which, name='hB', prog=[('pause',), ('ret', 4)] if hb == 'pause' else [('ret', 4)]), dict(bus='A', pat='X', name='hx', prog=[('ret', 0)])]
+        for o in (['A', 'B'], ['B', 'A']):
+            out.append(dict(prop='C03', family='c03.completed_descendant_dispatched_again', id=f'c03.again/{which}-d{int(depth3)}-{hb}-o{"".join(o)}', cfg=cfg, params=dict(leaf='again'),
+                            scn=dict(buses={'A': {}, 'B': {}}, order=o, handlers=hs, main=[('disp', 'A', 'P', 'await')], actors=[stall_actor], forwards=[], settle=2.0)))
     # self-recursion: hr(R d) dispatches R(d+1) while d < maxdepth
     for maxd, mode, extra in itertools.product((1, 2, 3, 4), ('ff', 'await'), (False, True)):
         hs = [dict(bus='A', pat='R', name='hr', prog=[('recurse', 'A', mode, maxd)] + ([('pause',)] if extra else []))]
